@@ -156,11 +156,15 @@ def body_profile(backing, n, ops, *args):
             Lp = 'TypeError'
         if Lp != plain[2]:
             return False
+        h0, h1 = prof.hit_count[0], prof.hit_count[1]
         try:
             at = ('value', prof[i])
         except Exception as e:   # noqa
             at = ('raises', type(e).__name__)
         if at != plain[3]:
+            return False
+        # one fetch through the indexing path: counted once, and as failed exactly if it raised (whatever the exception type)
+        if prof.hit_count[0] != h0 + 1 or prof.hit_count[1] != h1 + (1 if at[0] == 'raises' else 0):
             return False
         try:
             ks = list(prof.keys())
